@@ -256,13 +256,13 @@ func genX1DedupLarge(g *G) {
 		lens []int
 	}
 	shapes := []shape{
-		{300, []int{1}},                                // no duplicates at all: Dedup returns vs itself
-		{1000, []int{1000}},                            // a single run
+		{300, []int{1}},     // no duplicates at all: Dedup returns vs itself
+		{1000, []int{1000}}, // a single run
 		{1025, []int{1, 1, 1, 33, 1, 64, 65, 1, 256, 257, 1}},
-		{600, []int{2}},                                // every element doubled
-		{513, []int{1, 1, 1, 1, 1, 1, 1, 2}},           // the first duplicate late: a long prefix stays in place
+		{600, []int{2}},                      // every element doubled
+		{513, []int{1, 1, 1, 1, 1, 1, 1, 2}}, // the first duplicate late: a long prefix stays in place
 		{1000, []int{8, 16, 32, 33, 64, 65, 128, 1, 1}},
-		{700, []int{512, 1, 1, 1}},                     // one long run first, then no duplicates
+		{700, []int{512, 1, 1, 1}},                      // one long run first, then no duplicates
 		{700, []int{1, 1, 1, 1, 1, 1, 1, 1, 1, 1, 513}}, // no duplicates first, one long run last
 	}
 	if g.Thorough() {
